@@ -24,7 +24,9 @@ RULE = ("Hypothesis-generated histories: 1-2 root objects on one resource plus r
         "C02 wording; after a write the independently read resource equals the model. Non-trivial = "
         "an operation through a tree that had not loaded since the last rewrite and whose expected "
         "outcome differs from what it would have been before that rewrite; distinct by (class, kind "
-        "pair, op, handle depth, relation of rewrite position to handle).")
+        "pair, op, handle depth, relation of rewrite position to handle). Additional coverage-guided "
+        "campaigns (atheris/libFuzzer mutating the byte string that feeds the same generator; edge "
+        "coverage of synced_collections as feedback; all classes in thorough, two in quick).")
 ASSUMPTIONS = [
     "while the resource holds the other root kind operations must raise (documented ValueError); handles "
     "detached by the wording of C02 are not checked",
@@ -35,7 +37,10 @@ ASSUMPTIONS = [
 
 def shards(tier):
     reps = 1 if tier == "quick" else 8
-    return [{"cls": c.name, "rep": r} for c in ALL for r in range(reps)]
+    out = [{"cls": c.name, "rep": r} for c in ALL for r in range(reps)]
+    # coverage-guided campaigns (atheris) over the same case function; two classes in quick
+    fz = ALL if tier == "thorough" else [c for c in ALL if c.name in ("JSONDict", "MemoryBufferedJSONList")]
+    return out + [{"cls": c.name, "mode": "fuzz"} for c in fz]
 
 
 def positions(doc, pre=(), out=None):
@@ -173,7 +178,7 @@ def _gen_step(ci, dom, st8):
         if draw(st.integers(0, 9)) < 7:
             s = gen.draw_read(draw, w, hi, dom, refs=False)
         else:
-            s = gen.draw_mutator(draw, w, hi, dom, methods=W_METHODS[h.kind], p_raise=1)
+            s = gen.draw_mutator(draw, w, hi, dom, methods=W_METHODS[h.kind], p_raise=1, refs=True)
         # non-triviality: first op of this tree after a rewrite whose expected outcome changed
         if st8.get("before") is not None and h.obj not in st8["loaded"]:
             from ..plain import dec
@@ -198,11 +203,9 @@ def _gen_step(ci, dom, st8):
     return g
 
 
-def run_shard(spec, seed, tier, active):
+def make_one(spec, tier, acc):
     ci = CLASSES[spec["cls"]]
     dom = gen.Dom(ci)
-    acc = Acc()
-    n = 70 if tier == "quick" else 500
     max_steps = 30 if tier == "quick" else 45
 
     def one(data):
@@ -220,8 +223,16 @@ def run_shard(spec, seed, tier, active):
         sample = {"class": ci.name, "initial": repr(init),
                   "steps": [{k: v for k, v in s.items() if k != "meta"} for s in w.log[:14]]} if nt else None
         acc.case([h64(ci.name, t) for t in nt], sample, cnt)
+    return one
 
-    fail = hyp_search(one, n, seed)
+
+def run_shard(spec, seed, tier, active):
+    acc = Acc()
+    if spec.get("mode") == "fuzz":
+        from .. import fuzz
+        return fuzz.run_campaign("c02", spec, seed, acc, minimise=wm.minimize_world)
+    n = 70 if tier == "quick" else 500
+    fail = hyp_search(make_one(spec, tier, acc), n, seed)
     if fail is not None:
         acc.failures.append(wm.minimize_world(fail))
     return acc.result()
